@@ -1,11 +1,30 @@
 """Synchronisation primitives under contention: Mutex, Semaphore, RWLock, Barrier, Condition and the
 shared-capacity Resource. Several worker entities (one load source each) run overlapping jobs that
-acquire / hold for a non-zero time / release, so that most acquirers really block behind a holder."""
+acquire / hold / release, so that most acquirers really block behind a holder.
+
+Configuration space (every constructor parameter and every public operation of the six classes):
+  * a group is a BANK of variants of one primitive kind (semaphores with 1 / 2 / n permits, RWLocks with
+    max_readers None / 1 / n, barriers with 1 / 2 / workers / more-than-workers parties, conditions notified with
+    notify(1) / notify(n) / notify_all, integer and float resources); every variant has its own workers, all fed by the
+    same sources (one arrival = one job per variant, at the same instant); single-variant groups still occur;
+  * load regimes: light, busy, sustained overload (hold time far above the arrival gap for the whole run, waiter queues
+    only grow), zero hold times, holds longer than the run; same-instant bursts of many acquirers at (sometimes lossy)
+    absolute times;
+  * hold times, wait_for timeouts, barrier reset / abort times, resource resize times, kicker periods, burst times and
+    the source stop time come from the boundary palette `dur_ms` (lossy values such as 1.001 s / 2.05 s, 1-4 decimals);
+  * semaphore / resource requests of 1, 2, ..., all permits (count == capacity), fractional amounts on float resources,
+    blocking and non-blocking (`try_*`) calls; Mutex with and without owner; RWLock with only writers, only readers,
+    mixes; barrier reset / abort / reset-after-abort, several resets; Condition.wait loop, wait_for without and with a
+    timeout (shorter and longer than the hold time), notifications without new items (spurious wakeups from a kicker);
+    Resource.set_capacity up, down below the held amount, and back.
+None of the six classes has a hard-coded internal size constant (no history cap / maxlen / batch size): the waiter
+queues are unbounded deques; overload regimes make them hundreds long.
+"""
 from __future__ import annotations
 
 import random
 
-from hv.scenarios.base import T, seed_all, stats_of, sub_seed
+from hv.scenarios.base import T, dur_ms, seed_all, stats_of, sub_seed
 
 NAME = "sync"
 MODEL = "C09"
@@ -13,36 +32,113 @@ COMPONENTS = ["Mutex", "Semaphore", "RWLock", "Barrier", "Condition", "Resource"
               "SimFuture"]
 
 KINDS = ["mutex", "semaphore", "rwlock", "barrier", "condition", "resource"]
+REGIMES = ["light", "light", "busy", "overload", "overload", "zero"]
+JOB_BUDGET = 3200          # arrivals * variants per scenario (keeps the mean wall time of a scenario low)
+
+
+# ------------------------------------------------------------------------------------------------ cfg
+def _hold_palette(rng, regime, end_ms):
+    if regime == "zero":
+        return rng.choice([[0], [0, dur_ms(rng, 1, 10)], [0, 0, dur_ms(rng, 1, 50)]])
+    lo, hi = {"light": (1, 20), "busy": (5, 60), "overload": (20, 400)}[regime]
+    pal = [dur_ms(rng, lo, hi, zero=True) for _ in range(rng.randint(1, 3))]
+    if regime == "overload" and rng.random() < 0.25:
+        pal.append(dur_ms(rng, 1001, max(1002, end_ms + 500)))      # a hold longer than a second / than the run
+    return pal
+
+
+def _variants(rng, kind, workers):
+    """overrides of the group's parameters, one dict per parallel instance of the primitive"""
+    if rng.random() < 0.3:
+        return [{}]                                   # single-variant group
+    if kind == "mutex":
+        return [{"owner": True}, {"owner": False}]
+    if kind == "semaphore":
+        return [{"cap": c} for c in sorted(set([1, 2, rng.choice([3, 4, 5, 8])]))]
+    if kind == "rwlock":
+        return [{"max_readers": m} for m in (None, 1, rng.choice([2, 3, 8]))]
+    if kind == "barrier":
+        ps = sorted(set([1, 2, workers, workers + rng.choice([1, 2, 5])]))
+        return [{"parties": p} for p in ps]
+    if kind == "condition":
+        return [{"notify_all": False, "notify_n": 1}, {"notify_all": False, "notify_n": rng.choice([2, 3])},
+                {"notify_all": True}]
+    return [{"cap": 1, "float_cap": False}, {"cap": rng.choice([2, 3, 4]), "float_cap": False},
+            {"cap": rng.choice([1, 2, 3]), "float_cap": True}]
+
+
+def _gen_group(rng, kind, end_ms, budget):
+    regime = rng.choice(REGIMES)
+    workers = rng.randint(1, 5) if kind != "condition" else rng.randint(2, 5)
+    variants = _variants(rng, kind, workers)
+    stop_ms = dur_ms(rng, end_ms // 2, end_ms - 100)
+    rate = rng.choice([5, 10, 20, 40, 50, 100, 200])
+    while rate > 5 and workers * rate * len(variants) * stop_ms / 1000.0 > budget:
+        rate = {200: 100, 100: 50, 50: 40, 40: 20, 20: 10, 10: 5}[rate]
+    hold = _hold_palette(rng, regime, end_ms)
+    bursts = []
+    for _ in range(rng.choice([0, 0, 1, 1, 2])):
+        bursts.append([dur_ms(rng, 1, end_ms - 200, zero=True), rng.choice([2, 5, 12, 30, 60])])
+    cap = rng.choice([1, 1, 2, 2, 3, 5])
+    int_holds = [int(h) for h in hold if h >= 1] or [1]
+    g = {
+        "kind": kind,
+        "workers": workers,
+        "rate": rate,
+        "poisson": rng.random() < 0.5,
+        # old-shape key (integer bounds); new builds draw from "hold_pal"
+        "hold_ms": [min(int_holds), max(int_holds)],
+        "cap": cap,
+        "try_every": rng.choice([0, 0, 1, 2, 3, 5]),     # every n-th job uses the non-blocking try_* call
+        "amount2_every": rng.choice([0, 2, 4]),           # old-shape key; new builds draw from "amounts"
+        "max_readers": rng.choice([None, 1, 2, 3]),
+        "write_every": rng.choice([1, 2, 3, 5, 50]),      # 1 = only writers, 50 = almost only readers
+        "parties": rng.choice([1, 2, 2, 3, 4, workers, workers + 1, 7]),
+        "barrier_reset_ms": rng.choice([0, 0, 700, 1500]),
+        "barrier_abort_ms": rng.choice([0, 0, 0, 1900]),
+        "notify_all": rng.random() < 0.4,
+        "wait_for_timeout_ms": rng.choice([0, dur_ms(rng, 1, 30), dur_ms(rng, 20, 400), dur_ms(rng, 1001, 2100)]),
+        "resize": rng.choice([0, 0, 1]),
+        "float_cap": rng.random() < 0.3,
+        # ---- new keys (all read with cfg.get)
+        "regime": regime,
+        "hold_pal": hold,
+        "variants": variants,
+        "stop_ms": stop_ms,
+        "bursts": bursts,
+        "owner": rng.random() < 0.7,
+        # requested permits / amounts (clamped to the capacity of the variant); "cap" = everything
+        "amounts": rng.choice([[1], [1, 2], [1, 1, "cap"], [2, 3], ["cap"], [1, 2, 3, 5]]),
+        # dyadic fractions only: with amounts such as 0.1 the float bookkeeping of Resource (`_available += amount`)
+        # drifts and a correctly paired Grant.release() raises "releasing 0.1 would exceed capacity
+        # (2.9000000000000004 + 0.1 > 3.0)" (library exception, /tmp/orch/found/sync-resource-float-release.py)
+        "fractions": rng.choice([[0.5], [0.25, 0.5, 1.5], [0.125, 0.75]]),
+        "notify_n": rng.choice([1, 1, 1, 2, 2, 3, 0]),
+        "wait_for_plain": rng.random() < 0.3,            # wait_for(predicate) without timeout
+        "producers": rng.randint(1, max(1, workers - 1)),
+        "kick_ms": rng.choice([0, 0, dur_ms(rng, 20, 1500)]),   # notify without new items every kick_ms
+        "kick_all": rng.random() < 0.5,
+        "resets_ms": sorted(dur_ms(rng, 50, end_ms) for _ in range(rng.choice([0, 0, 1, 2, 4]))),
+        "aborts_ms": sorted(dur_ms(rng, 50, end_ms) for _ in range(rng.choice([0, 0, 0, 1]))),
+        # [time ms, new capacity as a multiple of the initial one in quarters]: grow, shrink below held, restore
+        "resize_at": sorted([dur_ms(rng, 50, end_ms), rng.choice([1, 2, 3, 4, 6, 8, 12])]
+                            for _ in range(rng.choice([0, 0, 1, 2, 3]))),
+    }
+    return g
 
 
 def gen_cfg(rng):
-    k = rng.randint(2, 4)
-    kinds = rng.sample(KINDS, k)
-    groups = []
-    for kind in kinds:
-        g = {
-            "kind": kind,
-            "workers": rng.randint(3, 5),
-            "rate": rng.choice([10, 20, 40, 50]),
-            "poisson": rng.random() < 0.5,
-            "hold_ms": [rng.randint(1, 10), rng.randint(10, 40)],
-            "cap": rng.randint(1, 2),
-            "try_every": rng.choice([0, 3, 5]),       # every n-th job uses the non-blocking try_* call
-            "amount2_every": rng.choice([0, 2, 4]),   # every n-th job asks for 2 units (semaphore/resource)
-            "max_readers": rng.choice([None, 1, 2]),
-            "write_every": rng.choice([2, 3, 5]),
-            "parties": rng.randint(2, 4),
-            "barrier_reset_ms": rng.choice([0, 0, 700, 1500]),
-            "barrier_abort_ms": rng.choice([0, 0, 0, 1900]),
-            "notify_all": rng.random() < 0.4,
-            "wait_for_timeout_ms": rng.choice([0, 20, 100]),
-            "resize": rng.choice([0, 0, 1]),
-            "float_cap": rng.random() < 0.3,
-        }
-        groups.append(g)
-    return {"groups": groups, "end": rng.choice([2.0, 3.0, 4.0])}
+    end = rng.choice([2.0, 3.0, 4.0])
+    if rng.random() < 0.1:
+        end = rng.choice([8.0, 10.0, 12.0])
+    end_ms = int(end * 1000)
+    k = rng.randint(1, 4)
+    kinds = [rng.choice(KINDS) for _ in range(k)] if rng.random() < 0.2 else rng.sample(KINDS, k)
+    groups = [_gen_group(rng, kind, end_ms, JOB_BUDGET / k) for kind in kinds]
+    return {"groups": groups, "end": end}
 
 
+# ------------------------------------------------------------------------------------------------ build
 def _make_worker_classes():
     from happysimulator.core.entity import Entity
 
@@ -61,33 +157,51 @@ def _make_worker_classes():
             self.errors = 0
             self.idx_sum = 0
             self.last_done_ns = 0
+            self.done_at = []          # completion instants (ns) in completion order
 
         def hold(self):
+            pal = self.g.get("hold_pal")
+            if pal:
+                return self.rng.choice(pal) / 1000.0
             lo, hi = self.g["hold_ms"]
             return self.rng.randint(lo, hi) / 1000.0
 
         def _finish(self):
             self.done += 1
             self.last_done_ns = self.now.nanoseconds
+            self.done_at.append(self.last_done_ns)
 
         def stats(self):
             return {"jobs": self.jobs, "done": self.done, "rejected": self.rejected, "errors": self.errors,
-                    "idx_sum": self.idx_sum, "last_done_ns": self.last_done_ns}
+                    "idx_sum": self.idx_sum, "last_done_ns": self.last_done_ns,
+                    "first_done": self.done_at[:8], "last_dones": self.done_at[-8:]}
 
         def handle_event(self, event):
             self.jobs += 1
             return getattr(self, "job_" + self.g["kind"])(self.jobs)
 
+        def _amount(self, n, cap):
+            """requested permits / units of job n (old shape: 2 every amount2_every-th job)"""
+            g = self.g
+            pal = g.get("amounts")
+            if pal is None:
+                return 2 if (g["amount2_every"] and n % g["amount2_every"] == 0 and cap >= 2) else 1
+            a = pal[n % len(pal)]
+            if a == "cap":
+                return cap
+            return a if a <= cap else cap
+
         # ---- mutex
         def job_mutex(self, n):
             g, m = self.g, self.prim
+            owner = self.name if g.get("owner", True) else None
             if g["try_every"] and n % g["try_every"] == 0:
-                if not m.try_acquire(owner=self.name):
+                if not m.try_acquire(owner=owner):
                     self.rejected += 1
                     return
                 yield self.hold()
             else:
-                yield from m.acquire(owner=self.name)
+                yield from m.acquire(owner=owner)
                 yield self.hold()
             m.release()
             self._finish()
@@ -95,7 +209,7 @@ def _make_worker_classes():
         # ---- semaphore
         def job_semaphore(self, n):
             g, s = self.g, self.prim
-            cnt = 2 if (g["amount2_every"] and n % g["amount2_every"] == 0 and s.capacity >= 2) else 1
+            cnt = int(self._amount(n, s.capacity))
             if g["try_every"] and n % g["try_every"] == 0:
                 if not s.try_acquire(cnt):
                     self.rejected += 1
@@ -111,7 +225,7 @@ def _make_worker_classes():
         def job_rwlock(self, n):
             g, lk = self.g, self.prim
             write = n % g["write_every"] == 0
-            use_try = g["try_every"] and n % g["try_every"] == 1
+            use_try = g["try_every"] and n % g["try_every"] == (1 % g["try_every"])
             if write:
                 if use_try:
                     if not lk.try_acquire_write():
@@ -158,12 +272,14 @@ def _make_worker_classes():
                 if g["notify_all"]:
                     cond.notify_all()
                 else:
-                    cond.notify()
+                    cond.notify(g.get("notify_n", 1))
                 mutex.release()
                 self._finish()
                 return
             tmo = g["wait_for_timeout_ms"]
-            if tmo:
+            if g.get("wait_for_plain"):
+                yield from cond.wait_for(lambda: len(items) > 0)
+            elif tmo:
                 ok = yield from cond.wait_for(lambda: len(items) > 0, timeout=tmo / 1000.0)
                 if not ok:
                     self.rejected += 1
@@ -181,9 +297,13 @@ def _make_worker_classes():
         # ---- resource
         def job_resource(self, n):
             g, r = self.g, self.prim
-            amt = 2 if (g["amount2_every"] and n % g["amount2_every"] == 0 and g["cap"] >= 2) else 1
+            cap0 = self.extra.get("cap0", g["cap"])
+            amt = self._amount(n, cap0)
             if g["float_cap"] and n % 3 == 1:
-                amt = 0.5       # fractional amounts of a float-capacity resource
+                fr = g.get("fractions", [0.5])
+                amt = min(fr[n % len(fr)], cap0)       # fractional amounts of a float-capacity resource
+            if amt > r.capacity:                         # the capacity was reduced meanwhile (set_capacity)
+                amt = r.capacity
             if g["try_every"] and n % g["try_every"] == 0:
                 grant = r.try_acquire(amt)
                 if grant is None:
@@ -192,8 +312,11 @@ def _make_worker_classes():
             else:
                 grant = yield r.acquire(amt)
             yield self.hold()
+            self.idx_sum += int(grant.amount * 100)
             grant.release()
             grant.release()  # idempotent by contract
+            if not grant.released:
+                self.errors += 1
             self._finish()
 
     return Worker
@@ -202,8 +325,10 @@ def _make_worker_classes():
 def build(cfg, seed):
     from happysimulator.components.resource import Resource
     from happysimulator.components.sync import Barrier, Condition, Mutex, RWLock, Semaphore
+    from happysimulator.core.entity import Entity
     from happysimulator.core.event import Event
     from happysimulator.core.simulation import Simulation
+    from happysimulator.load.event_provider import EventProvider
     from happysimulator.load.source import Source
 
     seed_all(seed)
@@ -211,65 +336,148 @@ def build(cfg, seed):
     entities, sources, obs, pre = [], [], {}, []
     end = cfg["end"]
 
-    for gi, g in enumerate(cfg["groups"]):
-        kind = g["kind"]
-        tag = f"g{gi}{kind}"
-        extra_common = {}
-        if kind == "mutex":
-            prim = Mutex(f"{tag}.mutex")
-            obs[tag + ".state"] = (lambda p=prim: {"locked": p.is_locked, "waiters": p.waiters, "owner": p.owner})
-        elif kind == "semaphore":
-            prim = Semaphore(f"{tag}.sem", initial_count=g["cap"])
-            obs[tag + ".state"] = (lambda p=prim: {"avail": p.available, "waiters": p.waiters})
-        elif kind == "rwlock":
-            prim = RWLock(f"{tag}.rw", max_readers=g["max_readers"])
-            obs[tag + ".state"] = (lambda p=prim: {"readers": p.active_readers, "w": p.is_write_locked,
-                                                  "waiters": p.waiters})
-        elif kind == "barrier":
-            prim = Barrier(f"{tag}.barrier", parties=g["parties"])
-            obs[tag + ".state"] = (lambda p=prim: {"waiting": p.waiting, "gen": p.generation, "broken": p.broken})
-            if g["barrier_reset_ms"]:
-                pre.append(Event.once(time=T(g["barrier_reset_ms"] / 1000.0), event_type=f"{tag}.reset",
-                                      fn=lambda e, p=prim: p.reset()))
-            if g["barrier_abort_ms"] and g["barrier_abort_ms"] / 1000.0 < end:
-                pre.append(Event.once(time=T(g["barrier_abort_ms"] / 1000.0), event_type=f"{tag}.abort",
-                                      fn=lambda e, p=prim: p.abort()))
-        elif kind == "condition":
-            mutex = Mutex(f"{tag}.lock")
-            prim = Condition(f"{tag}.cond", lock=mutex)
-            items = []
-            extra_common = {"items": items}
-            entities.append(mutex)
-            obs[tag + ".lock"] = stats_of(mutex)
-            obs[tag + ".state"] = (lambda p=prim, it=items: {"waiters": p.waiters, "locked": p.lock.is_locked,
-                                                              "lock_waiters": p.lock.waiters, "items": list(it)})
-        else:
-            cap = float(g["cap"]) if g["float_cap"] else g["cap"]
-            prim = Resource(f"{tag}.res", capacity=cap)
-            obs[tag + ".state"] = (lambda p=prim: {"avail": p.available, "waiters": p.waiters,
-                                                  "util": p.utilization, "cap": p.capacity})
-            if g["resize"]:
-                pre.append(Event.once(time=T(0.8), event_type=f"{tag}.grow",
-                                      fn=lambda e, p=prim, c=cap: p.set_capacity(c + 1)))
-                pre.append(Event.once(time=T(1.4), event_type=f"{tag}.shrink",
-                                      fn=lambda e, p=prim, c=cap: p.set_capacity(c)))
-        entities.append(prim)
-        obs[tag] = stats_of(prim)
-        for wi in range(g["workers"]):
-            extra = dict(extra_common)
-            if kind == "condition":
-                extra["producer"] = wi % 2 == 0
-            w = Worker(f"{tag}.w{wi}", g, prim, random.Random(sub_seed(seed, tag, wi)), extra)
-            entities.append(w)
-            obs[w.name] = w.stats
-            mk = Source.poisson if g["poisson"] else Source.constant
-            rate = g["rate"]
-            if kind == "condition" and extra["producer"]:
+    class Jobs(EventProvider):
+        """one arrival = one job for the same-numbered worker of every variant of the group"""
+
+        def __init__(self, targets, event_type, stop):
+            self.targets, self.event_type, self.stop = targets, event_type, stop
+            self.generated = 0
+
+        def get_events(self, time):
+            if time > self.stop:
+                return []
+            self.generated += 1
+            return [Event(time=time, event_type=self.event_type, target=w,
+                          context={"created_at": time, "request_id": self.generated}) for w in self.targets]
+
+    class Kicker(Entity):
+        """notifies a condition without holding its lock and without new items (spurious wakeups)"""
+
+        def __init__(self, name, conds, use_all, n):
+            super().__init__(name)
+            self.conds, self.use_all, self.n = conds, use_all, n
+            self.kicks = 0
+
+        def handle_event(self, event):
+            self.kicks += 1
+            for c in self.conds:
+                if self.use_all:
+                    c.notify_all()
+                else:
+                    c.notify(self.n)
+            return None
+
+    for gi, g0 in enumerate(cfg["groups"]):
+        kind = g0["kind"]
+        gtag = f"g{gi}{kind}"
+        variants = g0.get("variants") or [{}]
+        per_worker = [[] for _ in range(g0["workers"])]      # worker index -> the workers of all variants
+        conds = []
+        for vi, ov in enumerate(variants):
+            g = dict(g0)
+            g.update(ov)
+            tag = gtag if len(variants) == 1 and "variants" not in g0 else f"{gtag}v{vi}"
+            extra_common = {}
+            if kind == "mutex":
+                prim = Mutex(f"{tag}.mutex")
+                obs[tag + ".state"] = (lambda p=prim: {"locked": p.is_locked, "waiters": p.waiters,
+                                                      "owner": p.owner})
+            elif kind == "semaphore":
+                prim = Semaphore(f"{tag}.sem", initial_count=g["cap"])
+                obs[tag + ".state"] = (lambda p=prim: {"avail": p.available, "waiters": p.waiters,
+                                                      "capacity": p.capacity})
+            elif kind == "rwlock":
+                prim = RWLock(f"{tag}.rw", max_readers=g["max_readers"])
+                obs[tag + ".state"] = (lambda p=prim: {"readers": p.active_readers, "w": p.is_write_locked,
+                                                      "waiters": p.waiters, "max_readers": p.max_readers})
+            elif kind == "barrier":
+                prim = Barrier(f"{tag}.barrier", parties=g["parties"])
+                obs[tag + ".state"] = (lambda p=prim: {"waiting": p.waiting, "gen": p.generation,
+                                                      "broken": p.broken, "parties": p.parties})
+                if g["barrier_reset_ms"]:
+                    pre.append(Event.once(time=T(g["barrier_reset_ms"] / 1000.0), event_type=f"{tag}.reset",
+                                          fn=lambda e, p=prim: p.reset()))
+                if g["barrier_abort_ms"] and g["barrier_abort_ms"] / 1000.0 < end:
+                    pre.append(Event.once(time=T(g["barrier_abort_ms"] / 1000.0), event_type=f"{tag}.abort",
+                                          fn=lambda e, p=prim: p.abort()))
+                for t_ms in g.get("resets_ms", []):
+                    if t_ms / 1000.0 < end:
+                        pre.append(Event.once(time=T(t_ms / 1000.0), event_type=f"{tag}.reset",
+                                              fn=lambda e, p=prim: p.reset()))
+                for t_ms in g.get("aborts_ms", []):
+                    if t_ms / 1000.0 < end:
+                        pre.append(Event.once(time=T(t_ms / 1000.0), event_type=f"{tag}.abort",
+                                              fn=lambda e, p=prim: p.abort()))
+            elif kind == "condition":
+                mutex = Mutex(f"{tag}.lock")
+                prim = Condition(f"{tag}.cond", lock=mutex)
+                conds.append(prim)
+                items = []
+                extra_common = {"items": items}
+                entities.append(mutex)
+                obs[tag + ".lock"] = stats_of(mutex)
+                obs[tag + ".state"] = (lambda p=prim, it=items: {"waiters": p.waiters, "locked": p.lock.is_locked,
+                                                                  "lock_waiters": p.lock.waiters,
+                                                                  "lock_owner": p.lock.owner,
+                                                                  "lock_name": p.lock.name, "items": list(it)})
+            else:
+                cap = float(g["cap"]) if g["float_cap"] else g["cap"]
+                prim = Resource(f"{tag}.res", capacity=cap)
+                extra_common = {"cap0": cap}
+                obs[tag + ".state"] = (lambda p=prim: {"avail": p.available, "waiters": p.waiters,
+                                                      "util": p.utilization, "cap": p.capacity})
+                if g["resize"]:
+                    pre.append(Event.once(time=T(0.8), event_type=f"{tag}.grow",
+                                          fn=lambda e, p=prim, c=cap: p.set_capacity(c + 1)))
+                    pre.append(Event.once(time=T(1.4), event_type=f"{tag}.shrink",
+                                          fn=lambda e, p=prim, c=cap: p.set_capacity(c)))
+                for t_ms, quarters in g.get("resize_at", []):
+                    if t_ms / 1000.0 < end:
+                        new_cap = cap * quarters / 4.0 if g["float_cap"] else max(1, (cap * quarters) // 4)
+                        pre.append(Event.once(time=T(t_ms / 1000.0), event_type=f"{tag}.resize",
+                                              fn=lambda e, p=prim, c=new_cap: p.set_capacity(c)))
+            entities.append(prim)
+            obs[tag] = stats_of(prim)
+            n_prod = g.get("producers")
+            for wi in range(g["workers"]):
+                extra = dict(extra_common)
+                if kind == "condition":
+                    extra["producer"] = (wi % 2 == 0) if n_prod is None else wi < n_prod
+                w = Worker(f"{tag}.w{wi}", g, prim, random.Random(sub_seed(seed, tag, wi)), extra)
+                entities.append(w)
+                obs[w.name] = w.stats
+                per_worker[wi].append(w)
+
+        stop_s = g0["stop_ms"] / 1000.0 if "stop_ms" in g0 else end - 0.6
+        n_prod0 = g0.get("producers")
+        for wi in range(g0["workers"]):
+            mk = Source.poisson if g0["poisson"] else Source.constant
+            rate = g0["rate"]
+            is_prod = (wi % 2 == 0) if n_prod0 is None else wi < n_prod0
+            if kind == "condition" and is_prod:
                 rate = max(5, rate // 2)
-            src = mk(rate=rate, target=w, event_type=f"Job.{kind}", name=f"{tag}.src{wi}",
-                     stop_after=end - 0.6)
+            prov = Jobs(per_worker[wi], f"Job.{kind}", T(stop_s))
+            src = mk(rate=rate, name=f"{gtag}.src{wi}", event_provider=prov)
             sources.append(src)
-            obs[src.name] = (lambda s=src: s.generated_count)
+            obs[src.name] = (lambda s=src, p=prov: [s.generated_count, p.generated])
+
+        # same-instant bursts: n jobs at one (sometimes lossy) instant, round-robin over the workers of all variants
+        flat = [w for ws in per_worker for w in ws]
+        for bi, (t_ms, n) in enumerate(g0.get("bursts", [])):
+            if t_ms / 1000.0 >= end:
+                continue
+            for b in range(n):
+                pre.append(Event(time=T(t_ms / 1000.0), event_type=f"Job.{kind}", target=flat[b % len(flat)],
+                                 context={"burst": bi, "request_id": b}))
+        kick = g0.get("kick_ms", 0)
+        if kind == "condition" and kick:
+            kicker = Kicker(f"{gtag}.kicker", conds, g0.get("kick_all", True), max(1, g0.get("notify_n", 1)))
+            entities.append(kicker)
+            obs[kicker.name] = (lambda k=kicker: k.kicks)
+            i = 1
+            while i * kick / 1000.0 < end and i <= 400:
+                pre.append(Event(time=T(i * kick / 1000.0), event_type="Kick", target=kicker, context={}))
+                i += 1
 
     sim = Simulation(end_time=T(end), sources=sources, entities=entities)
     for e in pre:
